@@ -31,6 +31,30 @@ CHECKS = {
         text="The agent is the statement's model (functions requested-OID x repetition -> OID|endOfMibView); all functions for |U|<=3 (quick) / <=4 (thorough) are enumerated, larger and repetition-dependent ones sampled; non-termination is turned into a finite event by a request budget equal to the bound the property names, re-requests are read off the log.",
         ref="DESIGN.md 4/C03",
     ),
+    "C04": dict(
+        cat="exploration",
+        technique="runtime monitoring: API results vs reference semantics on the agent database and vs the bindings recorded on the wire",
+        text="Random databases with every value type, OID lists with duplicates/absent/end-of-view objects, all operations and all seven security levels; the monitor compares each result with the database semantics and with the agent's wire bindings (independently decoded); an injected-fault class adds/drops a binding or oversizes a GETBULK answer inside otherwise authentic responses and requires SnmpError.",
+        ref="DESIGN.md 4/C04",
+    ),
+    "C08": dict(
+        cat="exploration",
+        technique="runtime monitoring: exception class/offending-OID monitor over the full error-status x error-index x operation x level matrix",
+        text="The agent's answer is replaced at PDU level by an error response (inside authentic/encrypted v3 messages); the whole matrix of statuses (1..18, undefined, negative), indexes (0..len+3, negative, huge), list lengths (0..5) and operations (incl. first/later request of walks) is run; thorough runs it completely on all seven levels.",
+        ref="DESIGN.md 4/C08",
+    ),
+    "C15": dict(
+        cat="exploration",
+        technique="runtime monitoring: recursive exact-type walk over PyWrapper results + equality with pythonised raw results",
+        text="All eleven wrapper operations against generated databases holding every value type and multi-index tables; every returned object is walked recursively (dict keys included) and compared with the element-wise pythonisation of the raw client's result on an identical agent.",
+        ref="DESIGN.md 4/C15",
+    ),
+    "C17": dict(
+        cat="exploration",
+        technique="runtime monitoring: dense sweep of public constructors/converters with record-only contracts and an independent codec",
+        text="Exhaustive TimeTicks<->timedelta round trip over a dense prefix (2*10^6 quick, 2^26 thorough) plus boundaries and samples to 2^32-1; Counter/Counter64 over integers far outside the range; unsigned decoding from 1..9-octet contents; IpAddress; encode/decode through x690 and the independent codec.",
+        ref="DESIGN.md 4/C17",
+    ),
     "C16": dict(
         cat="exploration",
         technique="runtime monitoring: table()/bulktable() results vs tables built in the reference agent's database",
